@@ -85,6 +85,16 @@ ROUND7 = """IMPORTANT - already taken: in earlier rounds the changes listed belo
 """
 
 
+ROUND8 = """IMPORTANT - already taken: in earlier rounds the changes listed below were produced for this property. Do NOT repeat them or close variants (same line, same mechanism). This is the EIGHTH round. The checks being evaluated are model-based: abstract state machines of the library, bounded exhaustive exploration replayed on real objects, randomly generated objects / files / histories judged by an independent reference encoder-decoder, and by now hardened against histories, interleavings, compositions, boundary values, scale, environment (logging, warnings, strictness), value coincidences and error paths. Think adversarially about what such a checker still cannot see, e.g. -
+  * behaviour that depends on OBJECT IDENTITY or on the SAME object being used twice (one Note / Sample / Envelope / Mapping / Synth object placed in two containers, a module attached, used in a Synth and cloned while attached, a list passed in and kept by reference);
+  * public entry points nobody generates inputs for: read the package and list them first (constructor keywords of every class, `Project.layout`, `Pattern.clone`, `PatternClone`, `Note.clone / is_empty / tabular_repr`, `Project.pattern_lines`, `MultiCtl.reflect`, `MetaModule` aliases, `Sampler.Envelope` helpers, `Synth` container API, `rv.lib.*` helpers the modules call);
+  * arithmetic that is exact for the values a generator likes (0, 1, powers of two, range ends, the default) and wrong in between - rounding direction, float vs int division, truncation toward zero for negatives, off-by-one in the MIDDLE of a range;
+  * iteration order, dict / set ordering, sorting with ties, stability of `sorted`, `zip` truncation, `enumerate` start, slices with negative or out-of-range bounds;
+  * a change that is visible only the FIRST time something happens in a process (lazy initialisation, import-time tables) or only after a specific exception type was caught.
+
+"""
+
+
 def main():
     rnd, root = sys.argv[1], sys.argv[2]
     props = [json.loads(l) for l in open(os.path.join(VERIF, "properties.jsonl"))]
@@ -94,14 +104,14 @@ def main():
         files = (p.get("anchors") or {}).get("files", [])
         txt = HEAD.format(wt=wt, pid=pid, title=p.get("title", ""), statement=p.get("statement", ""),
                           quant=(p.get("quantifier") or {}).get("text", ""), files=", ".join(map(str, files)))
-        txt += ROUND7 if rnd == "7" else ROUND6 if rnd == "6" else ROUND5 if rnd == "5" else ROUND4
+        txt += ROUND8 if rnd == "8" else ROUND7 if rnd == "7" else ROUND6 if rnd == "6" else ROUND5 if rnd == "5" else ROUND4
         k = 0
         for d in sorted(glob.glob(os.path.join(VERIF, "seeded", pid + "-*"))):
             nf = os.path.join(d, "notes.md")
             if not os.path.exists(nf):
                 continue
             k += 1
-            txt += "--- earlier change %d ---\n%s\n\n" % (k, open(nf).read().strip()[:280])
+            txt += "--- earlier change %d ---\n%s\n\n" % (k, open(nf).read().strip()[:240])
         os.makedirs(root, exist_ok=True)
         open("%s/%s.prompt.txt" % (root, pid), "w").write(txt)
     print("wrote %d prompts under %s" % (len(props), root))
